@@ -42,6 +42,7 @@ def build(chain, start):
 
 class C13(Property):
     id = "C13"
+    anchors = ('finam.adapters.time:DelayFixed.with_delay', 'finam.adapters.time:DelayToPull.with_delay', 'finam.adapters.time:DelayToPush.with_delay', 'finam.sdk.adapter:TimeDelayAdapter.get_data', 'finam.schedule:_find_dependencies')
     technique = "reference-model monitor: compositional delay model vs the time observed at the source's public get_data and the unique id of the delivered publication"
     rule = (
         "chains of 1-3 delay adapters (fixed d in {0,<step,>step,non-multiples}; to-pull n in 1..4 with extra delay; to-push) mixed with "
